@@ -45,10 +45,17 @@ func (c *PublishHeader) WriteHTMLTo(w io.Writer) (int64, error) {
 	if c.options.ShowIndividuals {
 		badge := core.NewCountBadge(len(c.document.Individuals()))
 		title := core.NewComponents(core.NewText("Individuals "), badge)
+
+		// There are no letters when there are no individuals to show.
+		firstLetter := rune(symbolLetter)
+		if len(c.indexLetters) > 0 {
+			firstLetter = c.indexLetters[0]
+		}
+
 		item := core.NewNavItem(
 			title,
 			c.selectedTab == selectedIndividualsTab,
-			PageIndividuals(c.indexLetters[0]),
+			PageIndividuals(firstLetter),
 		)
 		items = append(items, item)
 	}
